@@ -1068,3 +1068,74 @@ func wgNestedModel(idx int) *gen.Model {
 		{Name: "doc", Rels: []gen.Relation{rel("u", ru, tu), rel("e", re, te), rel("m", rm, tm), rel("w", rw, tw), rel("x", x, nil)}},
 	}}
 }
+
+// wgNamePairModels: a small deterministic family around special name pairs (gen names.go) and long structures.
+//   - two object types A, B (a special pair) with one relation m each, on interlocking tuple cycles:
+//     A#m: [user, A#m, B#m], B#m: [emp, B#m, A#m]
+//   - one object type with two relations a, b (a special pair) on interlocking tuple cycles
+//   - chains of 65..1500 computed usersets ending in [user]; rings of 3..300 relations linked by computed usersets,
+//     by tuple-to-usersets, or by both
+//
+// Every model is evaluated like a generated one (real builds, hook orders, reference weights and verdict).
+func wgNamePairModels() []*gen.Model {
+	var out []*gen.Model
+	pairs := [][2]string{{"member", "members"}, {"member", "member_of"}, {"r1", "r10"}, {"group", "subgroup"}, {"team", "subteam"}, {"reader", "proofreader"},
+		{"document_viewer", "document_editor"}, {"team1", "team01"}, {"viewer", "Viewer"}, {"team-", "team"}, {"a--b", "a-b"}, {"Repo", "Release"}, {"R", "RR"}, {"ab", "abc"}, {"x.y", "x.y.z"}}
+	for i, tw := range gen.HashTwins() {
+		if i%12 < 2 { // two pairs per hash function
+			pairs = append(pairs, tw)
+		}
+	}
+	for _, p := range pairs {
+		for _, sw := range []bool{false, true} {
+			a, b := p[0], p[1]
+			if sw {
+				a, b = b, a
+			}
+			// two types, one relation name
+			out = append(out, &gen.Model{Schema: "1.1", Scaled: "name-pair-family", Types: []gen.TypeDef{{Name: "user"}, {Name: "emp"},
+				{Name: a, Rels: []gen.Relation{{Name: "m", Rw: &gen.Rewrite{Kind: gen.This}, Restr: []gen.Restriction{{Type: "user"}, {Type: a, Rel: "m"}, {Type: b, Rel: "m"}}}}},
+				{Name: b, Rels: []gen.Relation{{Name: "m", Rw: &gen.Rewrite{Kind: gen.This}, Restr: []gen.Restriction{{Type: "emp"}, {Type: b, Rel: "m"}, {Type: a, Rel: "m"}}}}}}})
+			// one type, two relation names
+			out = append(out, &gen.Model{Schema: "1.1", Scaled: "name-pair-family", Types: []gen.TypeDef{{Name: "user"}, {Name: "emp"},
+				{Name: "doc", Rels: []gen.Relation{
+					{Name: a, Rw: &gen.Rewrite{Kind: gen.This}, Restr: []gen.Restriction{{Type: "user"}, {Type: "doc", Rel: a}, {Type: "doc", Rel: b}}},
+					{Name: b, Rw: &gen.Rewrite{Kind: gen.This}, Restr: []gen.Restriction{{Type: "emp", Wild: true}, {Type: "doc", Rel: b}, {Type: "doc", Rel: a}}}}}}})
+		}
+	}
+	for _, n := range []int{65, 130, 257, 1030, 1500} {
+		td := gen.TypeDef{Name: "doc"}
+		for i := 0; i < n; i++ {
+			r := gen.Relation{Name: fmt.Sprintf("level%04d", i)}
+			if i == n-1 {
+				r.Rw, r.Restr = &gen.Rewrite{Kind: gen.This}, []gen.Restriction{{Type: "user"}}
+			} else {
+				r.Rw = &gen.Rewrite{Kind: gen.Computed, Rel: fmt.Sprintf("level%04d", i+1)}
+			}
+			td.Rels = append(td.Rels, r)
+		}
+		out = append(out, &gen.Model{Schema: "1.1", Scaled: "chain-family", Types: []gen.TypeDef{{Name: "user"}, td}})
+	}
+	for _, n := range []int{3, 64, 129, 130, 257, 300} {
+		for mode := 0; mode < 4; mode++ {
+			td := gen.TypeDef{Name: "doc", Rels: []gen.Relation{{Name: "p", Rw: &gen.Rewrite{Kind: gen.This}, Restr: []gen.Restriction{{Type: "doc"}}}}}
+			nm := func(i int) string { return fmt.Sprintf("rg%03d", i%n) }
+			for i := 0; i < n; i++ {
+				u := &gen.Rewrite{Kind: gen.Union, Kids: []*gen.Rewrite{{Kind: gen.This}}}
+				comp := &gen.Rewrite{Kind: gen.Computed, Rel: nm(i + 1)}
+				ttu := &gen.Rewrite{Kind: gen.TTU, Rel: nm(i + 1), Tupleset: "p"}
+				switch {
+				case mode == 0:
+					u.Kids = append(u.Kids, ttu, comp)
+				case mode == 1, mode == 2 && i != n/2:
+					u.Kids = append(u.Kids, comp)
+				default:
+					u.Kids = append(u.Kids, ttu)
+				}
+				td.Rels = append(td.Rels, gen.Relation{Name: nm(i), Rw: u, Restr: []gen.Restriction{{Type: "user"}}})
+			}
+			out = append(out, &gen.Model{Schema: "1.1", Scaled: "ring-family", Types: []gen.TypeDef{{Name: "user"}, td}})
+		}
+	}
+	return out
+}
